@@ -44,7 +44,22 @@ pub fn proj_json(ont: &Ontology) -> Result<Value, String> {
         g.sort_by_key(|x| x.0);
         o.sort_by_key(|x| x.0);
         r.sort_by_key(|x| x.0);
-        json!({"len": ont.len(), "terms": terms,
+        // information content must be consistent with the ontology's OWN link sets and record counts
+        // (n = linked ids of the kind, N = records of the kind), whatever path built the ontology
+        let mut ic_bad: Vec<String> = vec![];
+        let totals = [ont.genes().count(), ont.omim_diseases().count(), ont.orpha_diseases().count()];
+        for t in ont.iter() {
+            let ic = t.information_content();
+            let ns = [t.gene_ids().len(), t.omim_disease_ids().len(), t.orpha_disease_ids().len()];
+            let got = [ic.gene(), ic.omim_disease(), ic.orpha_disease()];
+            for k in 0..3 {
+                let want = crate::project::ic_expected(ns[k], totals[k]);
+                if !crate::project::close_f32(got[k], want, 1e-5, 1e-6) || !(got[k] >= 0.0) {
+                    ic_bad.push(format!("term {} {}: IC {} but n = {}, N = {} (expected {})", t.id(), KINDS[k].name(), got[k], ns[k], totals[k], want));
+                }
+            }
+        }
+        json!({"len": ont.len(), "terms": terms, "ic_bad": ic_bad,
                "gene": g.into_iter().map(|x| x.1).collect::<Vec<_>>(),
                "omim": o.into_iter().map(|x| x.1).collect::<Vec<_>>(),
                "orpha": r.into_iter().map(|x| x.1).collect::<Vec<_>>()})
